@@ -12,7 +12,7 @@ CLAIMS = {
          "assumed: ghost file system (os.File/bufio/io models), C CRC loop (table proved, step lemma proved, loop bounded-checked); I/O errors other than end-of-file are excluded for the scanner (reliable_io)"),
  "C10": ("flag/ownership logic around compression is the identity for clients given the assumed QuickLZ codec relation; value hash taken from the uncompressed bytes; safe decompress entry points and C<->Go round trips (incl. matches at the format's offset/length thresholds) as bounded stand-ins",
          "assumed: QuickLZ codecs (C and Go) related through an uninterpreted decompression function; CArray.Alloc (cgo malloc); bounded (not proof): cross round trips, safe-decompress fuzz. Not under contract: the read paths that call Decompress (GetRecordByOffset), hint rebuild (buildHintFromData)"),
- "C11": ("ServerConn.ServeOnce, for every outcome of the parser, the interpreter, the storage client and the clock: when it returns without error and the connection stays open, the command got a reply (at least one byte written to the connection's writer) unless it asked for noreply, every byte written has been flushed, and the per-connection request object is reset (NoReply false, no item) so nothing carries over to the next command; Request.Clear and Shutdown verified",
+ "C11": ("ServerConn.ServeOnce, for every outcome of the parser, the interpreter, the storage client and the clock: when it returns without error and the connection stays open, the command got a reply (at least one byte written to the connection's writer) unless it asked for noreply, every byte written has been flushed, and the per-connection request object is reset (NoReply false, no item) so nothing carries over to the next command; Request.Clear and Shutdown verified; special keys: a record by key hash ('@@', /keyhash) reaches the store only with a full 16-digit path and a listing ('@') only with a path the tree code accepts (callers checked against the store's preconditions; StorageClient.Get as a variant contract for '@' keys, body only)",
          "scope: executions in which no callee panics (recover() is modelled as an arbitrary value; what a panic inside Read/Process skips is not modelled, so the 'never crashes / never wedged' half of C11 and design findings F5/F13 are not decided); verified: Request.Read and Request.Process (string splitting and number parsing opaque; storage client through assumed interface-method contracts); assumed: Response.Write (a reply is >= 1 byte, nothing for noreply), token limiter, bufio.Writer as a ghost byte stream with a flushed prefix. Not covered: syntactic validity of replies, byte-exact value transfer, request/response round trip (string formats are opaque to the verifier), ordering across pipelined commands beyond 'flushed before the next read'"),
  "C12": ("per-call contribution contracts of the buffer counters: ResourceLimiter arithmetic, CArray alloc/free/copy, TryCompress/Decompress/Copy allocation balance, readRecordAt and the scanner, Bucket.get (a returned payload is charged exactly once, nothing else), Bucket.incr and HStore.Incr (GetData returns to its old value), Bucket.set (SetData -> FlushData move)",
          "not under contract: request tokens, Response.CleanBuffer, dataChunk.flush; AppendRecord/GetRecordByPos accounting clauses are assumed (read off the code); counters are treated sequentially (atomics as plain adds); environment failures (refused allocation) are outside the clauses"),
